@@ -318,9 +318,50 @@ func ruleC15(c *Ctx) {
 		names = append(names, n)
 	}
 	sort.Strings(names)
+	// table keys in fname form, for the ownership closure
+	fnForm := func(n string) string {
+		i := strings.LastIndex(n, "/")
+		j := strings.Index(n[i+1:], ".") + i + 1
+		pkg, rest := n[:j], n[j+1:]
+		if k := strings.Index(rest, "."); k >= 0 {
+			t, m := rest[:k], rest[k+1:]
+			if strings.HasPrefix(t, "*") {
+				return "(*" + pkg + "." + t[1:] + ")." + m
+			}
+			return "(" + pkg + "." + t + ")." + m
+		}
+		return pkg + "." + rest
+	}
+	allowedFn := map[string]string{}
+	back := map[string]string{}
+	for n, why := range table {
+		allowedFn[fnForm(n)] = why
+		back[fnForm(n)] = n
+	}
+	total := map[string]int{}
+	for n, k := range got {
+		if _, ok := table[n]; ok {
+			total[n] += k
+		}
+	}
 	for _, n := range names {
 		why, ok := table[n]
+		if !ok {
+			// a helper split off a reviewed function keeps that function's review as long as the
+			// reviewed function and its helpers together contain no more map loops than reviewed
+			if owners, owned := c.ownersOf(fnForm(n), allowedFn, 3); owned {
+				ok, why = true, "helper of "+strings.Join(owners, ", ")+" (absent from the reference inventory)"
+				for _, o := range owners {
+					total[back[o]] += got[n]
+				}
+			}
+		}
 		c.Require("maporder", "map iteration in "+n+" is order-independent (reviewed)", ok, "%d range-over-map loop(s): %s", got[n], map[bool]string{true: why, false: "not in the reviewed table — classify it (commutative body / sorted afterwards / named exception)"}[ok])
+	}
+	for n, k := range total {
+		if k > 1 {
+			c.Require("maporder", "map iteration in "+n+": no more loops than reviewed", false, "%d range-over-map loops in %s and its new helpers; 1 was reviewed", k, n)
+		}
 	}
 	av := c.Func(pState, "(*Checkpoint).AllValidators")
 	if av != nil {
